@@ -56,12 +56,6 @@ impl Obj {
         self.kids.push(child);
         self.u32(0)
     }
-    pub fn opt16(&mut self, child: Option<Obj>) -> &mut Obj {
-        match child {
-            Some(c) => self.off16(c),
-            None => self.u16(0),
-        }
-    }
     pub fn opt32(&mut self, child: Option<Obj>) -> &mut Obj {
         match child {
             Some(c) => self.off32(c),
@@ -159,29 +153,6 @@ pub fn classdef(c: &Value) -> Option<Obj> {
 
 fn classdef_required(c: &Value) -> Obj {
     classdef(c).expect("a class definition inside a subtable cannot be absent")
-}
-
-pub fn gdef_absent(g: &Value) -> bool {
-    int(&g["cls"]["fmt"]) == 0 && int(&g["att"]["fmt"]) == 0 && arr(&g["sets"]).is_empty()
-}
-
-/// GDEF 1.2: glyph class definition, mark attachment classes, mark glyph sets.
-pub fn gdef(g: &Value) -> Vec<u8> {
-    let mut o = Obj::new();
-    o.u16(1).u16(2);
-    o.opt16(classdef(&g["cls"])).u16(0).u16(0).opt16(classdef(&g["att"]));
-    let sets = arr(&g["sets"]);
-    if sets.is_empty() {
-        o.u16(0);
-    } else {
-        let mut s = Obj::new();
-        s.u16(1).u16(sets.len() as u16);
-        for set in sets {
-            s.off32(coverage(set));
-        }
-        o.off16(s);
-    }
-    o.flatten()
 }
 
 fn lookup_records(o: &mut Obj, recs: &Value) {
@@ -441,29 +412,4 @@ pub fn gsub(p: &Value, scripts: &[&str]) -> Vec<u8> {
         o.u16(1).u16(1).off16(sl).off16(fl).off16(ll).off32(fv);
     }
     o.flatten()
-}
-
-// ---- evaluation of the abstract tables (used only to project observations and to pick inputs) -----
-pub fn class_of(cd: &Value, g: i64) -> i64 {
-    match int(&cd["fmt"]) {
-        0 => 0,
-        1 => {
-            let start = int(&cd["start"]);
-            let cl = arr(&cd["classes"]);
-            if g >= start && ((g - start) as usize) < cl.len() {
-                int(&cl[(g - start) as usize])
-            } else {
-                0
-            }
-        }
-        _ => {
-            for r in arr(&cd["ranges"]) {
-                let r = ints(r);
-                if r[0] <= g && g <= r[1] {
-                    return r[2];
-                }
-            }
-            0
-        }
-    }
 }
